@@ -205,6 +205,23 @@ cipher_block(IMB_CIPHER_MODE c)
         }
 }
 static int
+cipher_zero_len_ok(IMB_CIPHER_MODE c)
+{
+        switch (c) {
+        case IMB_CIPHER_GCM:
+        case IMB_CIPHER_CCM:
+        case IMB_CIPHER_CHACHA20_POLY1305:
+        case IMB_CIPHER_SNOW_V:
+        case IMB_CIPHER_SNOW_V_AEAD:
+        case IMB_CIPHER_SM4_GCM:
+        case IMB_CIPHER_DOCSIS_SEC_BPI:
+        case IMB_CIPHER_CFB:
+                return 1;
+        default:
+                return 0;
+        }
+}
+static int
 cipher_is_bitlen(IMB_CIPHER_MODE c)
 {
         return c == IMB_CIPHER_CNTR_BITLEN || c == IMB_CIPHER_SNOW3G_UEA2_BITLEN ||
@@ -773,6 +790,8 @@ item_gen(struct item *it, const struct suite *cs, const struct suite *hs, struct
                                 if (len == 0 && it->cipher != IMB_CIPHER_CFB)
                                         len = blk;
                         }
+                        if (len == 0 && !cipher_zero_len_ok(it->cipher))
+                                len = blk;
                         if (len > cmax)
                                 len = cmax / blk * blk;
                         it->c_len = len;
